@@ -120,7 +120,7 @@ func prefillFor(m *model, w window, fileSize int, want byte) byte {
 // TestPropOverlay is the main property: views, visible intervals, ReadAt,
 // compaction and manifests of one generated chunk list.
 func TestPropOverlay(t *testing.T) {
-	vlib.Check(t, 1200, 12000, func(t *rapid.T) {
+	vlib.Check(t, 3000, 30000, func(t *rapid.T) {
 		specs, base := genSpecs(t, 12)
 		m := newModel(specs)
 		fileSize := m.total + rapid.SampledFrom([]int{0, 0, 0, 1, 5}).Draw(t, "sizeBeyondChunks")
@@ -369,7 +369,7 @@ func bucket(n int) string {
 // TestPropStreamContent: the filer's HTTP read path (StreamContent) writes the
 // overlay bytes of the requested range.
 func TestPropStreamContent(t *testing.T) {
-	vlib.Check(t, 500, 5000, func(t *rapid.T) {
+	vlib.Check(t, 800, 8000, func(t *rapid.T) {
 		specs, base := genSpecs(t, 8)
 		m := newModel(specs)
 		chunks := buildChunks(specs, true)
@@ -379,7 +379,8 @@ func TestPropStreamContent(t *testing.T) {
 			off, size int64
 			end       int // expected end position
 		}
-		calls := []call{{0, math.MaxInt64, m.total}, {0, int64(fileSize), fileSize}}
+		// an unbounded request (fs.cat) ends with the last stored byte; a bounded one delivers exactly size bytes
+		calls := []call{{0, math.MaxInt64, m.dataEnd}, {0, int64(fileSize), fileSize}}
 		for i := 0; i < 3 && fileSize > 0; i++ {
 			a := rapid.IntRange(0, fileSize-1).Draw(t, "rangeStart")
 			l := rapid.IntRange(1, fileSize-a).Draw(t, "rangeLen")
